@@ -57,7 +57,7 @@ func runCodecx(ctx *core.Ctx, tier string) {
 	zs.SetController(nil)
 	c := &codecRun{ctx: ctx, n: ctx.Counter("comparisons"), tier: tier}
 	ctx.Rep.Rule = "(1) texts: every value of the V3 family in 3-4 spellings plus escape/number specials: Unmarshal->Marshal reads back (independent reader) as the same value with number literals and code points intact; UnmarshalWithKeys / UnmarshalValidWithKeys report member names in document order; Compact / Indent / HTMLEscape equal independent implementations byte for byte; MarshalEscaped(false) differs from Marshal only in the five escapes - each call made on a fresh codec state (pools emptied) and again on the recycled one. " +
-		"(2) Go values: run-time built types (bool, ints, float64, string, []byte, any, pointers, slices, arrays, maps with string/int keys, structs via reflect.StructOf with tags name / omitempty / string / '-' / '-,' and embedding; depth 2, thorough 3) x per-kind value domains (zero, extreme, NaN/Inf, HTML and invalid-UTF-8 strings, nil vs empty): Marshal, MarshalIndent, MarshalEscaped(false) equal encoding/json's bytes and error-ness (U+0008/U+000C spelling normalised); every text of a shape-matching and mismatching set is decoded into zero and into pre-filled targets and must give encoding/json's value (UseNumber; Number types normalised) and error-ness. " +
+		"(2) Go values: run-time built types (bool, ints, float64, string, []byte, any, pointers, slices, arrays, maps with string/int keys, structs via reflect.StructOf with tags name / omitempty / string / '-' / '-,' and embedding; named types with MarshalJSON / UnmarshalJSON / MarshalText / UnmarshalText on value and pointer receivers, as fields, elements, map keys and behind interfaces, incl. a Marshaler that fails and one that returns invalid JSON; depth 2, thorough 3) x per-kind value domains (zero, extreme, NaN/Inf, HTML and invalid-UTF-8 strings, nil vs empty): Marshal, MarshalIndent, MarshalEscaped(false) equal encoding/json's bytes and error-ness (U+0008/U+000C spelling normalised); every text of a shape-matching and mismatching set is decoded into zero and into pre-filled targets and must give encoding/json's value (UseNumber; Number types normalised) and error-ness. " +
 		"(3) streams: Decoder scripts over {Decode(any), Decode(int), Token, More, Buffered, InputOffset} of length <= 3 (thorough 4) on 9 streams, under EVERY split of the stream into <= 3 reads, compared step by step with encoding/json; Encoder with every SetIndent x SetEscapeHTML setting. states = distinct texts + (type,value) pairs + (stream,split) pairs; transitions = comparisons"
 	ctx.Rep.Assume = append(ctx.Rep.Assume, "relative to the installed standard library (go1.23); field names are ASCII; RedirectMarshaler/TrustMarshaler are fork-only and judged through the library-level checks (C05, C15)")
 	ctx.Phase("texts", func() { c.partTexts() })
@@ -451,7 +451,8 @@ func structsOver(ts []typeSpec, max int) []typeSpec {
 }
 
 var decodeTexts = []string{`null`, `true`, `1`, `-1.5`, `1e3`, `300`, `1.0`, `"s"`, `"1"`, `"aGk="`, `""`, `[]`, `[1,2,3]`, `[null]`, `["a",null]`, `{}`,
-	`{"x":1,"A":2,"a":3,"B":null}`, `{"x":"1","A":"2"}`, `{"A":{"A":"in"},"c":true}`, `{"10":1,"-2":null,"b<":2}`, `{"a":[1],"b":{"c":null}}`, `[[1],[2,3]]`, `12345678901234567890`, `{"a":1,"b":2,"c":"y","z":true,"A2":"t"}`, `{"b":"wrong type","a":5}`, "{\"c\u007fd\":5,\"C_D\":6}", `{"c\u007fd":7}`, `{"x":7,"y":null,"z":8,"A":null}`}
+	`{"x":1,"A":2,"a":3,"B":null}`, `{"x":"1","A":"2"}`, `{"A":{"A":"in"},"c":true}`, `{"10":1,"-2":null,"b<":2}`, `{"a":[1],"b":{"c":null}}`, `[[1],[2,3]]`, `12345678901234567890`, `{"a":1,"b":2,"c":"y","z":true,"A2":"t"}`, `{"b":"wrong type","a":5}`, "{\"c\u007fd\":5,\"C_D\":6}", `{"c\u007fd":7}`, `{"x":7,"y":null,"z":8,"A":null}`,
+	`{"v":{"n<":5},"p":[1],"pv":"str","t":"txt","tp":"p","m":{"k":1},"i":{"a":1.50},"s":[{},1],"mm":{"q":[2],"z":null}}`, `"plain text"`, `[7 ,8]`}
 
 // norm turns a decoded Go value into a comparable text, unifying the two Number types.
 func norm(v reflect.Value, sb *strings.Builder, depth int) {
@@ -621,6 +622,71 @@ type EmbTopP struct {
 	A string `json:"A2"`
 }
 
+// types with their own (un)marshalling methods: the codec must call them exactly as encoding/json does
+type mJSONVal struct{ N int }
+
+func (m mJSONVal) MarshalJSON() ([]byte, error) { return []byte(fmt.Sprintf(`{"n<":%d}`, m.N)), nil }
+
+type mJSONPtr struct{ N int }
+
+func (m *mJSONPtr) MarshalJSON() ([]byte, error) {
+	return []byte(fmt.Sprintf(` [ %d ,"&"] `, m.N)), nil
+}
+func (m *mJSONPtr) UnmarshalJSON(b []byte) error {
+	if len(b) > 0 && b[0] == '"' {
+		return fmt.Errorf("mJSONPtr: strings refused")
+	}
+	m.N = len(b)
+	return nil
+}
+
+type mText struct{ S string }
+
+func (m mText) MarshalText() ([]byte, error) { return []byte("t<" + m.S), nil }
+func (m *mText) UnmarshalText(b []byte) error {
+	m.S = "got:" + string(b)
+	return nil
+}
+
+type mErr struct{ Fail bool }
+
+func (m mErr) MarshalJSON() ([]byte, error) {
+	if m.Fail {
+		return nil, fmt.Errorf("mErr refuses")
+	}
+	return []byte(`{"ok":`), nil // invalid JSON from a Marshaler: both codecs must reject it
+}
+
+type mHolder struct {
+	V  mJSONVal             `json:"v"`
+	P  *mJSONPtr            `json:"p,omitempty"`
+	PV mJSONPtr             `json:"pv"`
+	T  mText                `json:"t"`
+	TP *mText               `json:"tp"`
+	M  map[mText]int        `json:"m,omitempty"`
+	I  interface{}          `json:"i"`
+	S  []mJSONVal           `json:"s"`
+	MM map[string]*mJSONPtr `json:"mm"`
+}
+
+func methodTypes() []typeSpec {
+	h := mHolder{V: mJSONVal{1}, P: &mJSONPtr{2}, PV: mJSONPtr{3}, T: mText{"a&"}, TP: &mText{"b"}, M: map[mText]int{{"k2"}: 2, {"k1"}: 1},
+		I: mJSONVal{4}, S: []mJSONVal{{5}, {6}}, MM: map[string]*mJSONPtr{"x": {7}, "n": nil}}
+	return []typeSpec{
+		{reflect.TypeOf(mJSONVal{}), mk(mJSONVal{}, mJSONVal{-1})},
+		{reflect.TypeOf(&mJSONVal{}), mk((*mJSONVal)(nil), &mJSONVal{9})},
+		{reflect.TypeOf(mJSONPtr{}), mk(mJSONPtr{}, mJSONPtr{8})},
+		{reflect.TypeOf(&mJSONPtr{}), mk((*mJSONPtr)(nil), &mJSONPtr{8})},
+		{reflect.TypeOf(mText{}), mk(mText{}, mText{"x\"y"})},
+		{reflect.TypeOf(&mText{}), mk((*mText)(nil), &mText{"z"})},
+		{reflect.TypeOf(mErr{}), mk(mErr{}, mErr{true})},
+		{reflect.TypeOf(map[mText]mJSONVal{}), mk(map[mText]mJSONVal(nil), map[mText]mJSONVal{{"b"}: {1}, {"a"}: {2}})},
+		{reflect.TypeOf([]*mJSONPtr{}), mk([]*mJSONPtr(nil), []*mJSONPtr{{1}, nil, {2}})},
+		{reflect.TypeOf(mHolder{}), mk(mHolder{}, h)},
+		{reflect.TypeOf(&mHolder{}), mk(&h)},
+	}
+}
+
 func embeddedTypes() []typeSpec {
 	v1 := embTop{Z: true}
 	v1.A, v1.B, v1.C = 11, 22, "x"
@@ -649,6 +715,7 @@ func (c *codecRun) typeList() []typeSpec {
 	d2 := derive(sel)
 	all = append(all, d2...)
 	all = append(all, embeddedTypes()...)
+	all = append(all, methodTypes()...)
 	if c.tier == "thorough" {
 		all = append(all, structsOver(d1, len(d1))...)
 		d3sel := []typeSpec{}
